@@ -539,14 +539,15 @@ func (f *dataFamily) WriteRows(rows []*metric.StorageRow) error {
 		return nil
 	}
 
-	db, err := f.GetOrCreateMemoryDatabase(f.familyTime)
+	// get the memory database and register as its writer in one step: a flush which freezes the database
+	// in between would not wait for this write, the rows would go into a database that is already flushed.
+	db, err := f.acquireMemoryDatabase(f.familyTime)
 	if err != nil {
 		// all rows are dropped
 		f.statistics.WriteMetricFailures.Add(float64(len(rows)))
 		return err
 	}
 	verifGate("writerows.gotdb")
-	db.AcquireWrite()
 	defer func() {
 		f.statistics.WriteBatches.Incr()
 		db.CompleteWrite()
@@ -614,6 +615,25 @@ func (f *dataFamily) GetOrCreateMemoryDatabase(familyTime int64) (memdb.MemoryDa
 	f.mutex.Lock()
 	defer f.mutex.Unlock()
 
+	return f.getOrCreateMemoryDatabase(familyTime)
+}
+
+// acquireMemoryDatabase returns the memory database with the caller registered as writer(AcquireWrite),
+// under the lock which the flush job holds when it freezes the memory database.
+func (f *dataFamily) acquireMemoryDatabase(familyTime int64) (memdb.MemoryDatabase, error) {
+	f.mutex.Lock()
+	defer f.mutex.Unlock()
+
+	db, err := f.getOrCreateMemoryDatabase(familyTime)
+	if err != nil {
+		return nil, err
+	}
+	db.AcquireWrite()
+	return db, nil
+}
+
+// getOrCreateMemoryDatabase returns memory database by given family time, the caller holds the lock.
+func (f *dataFamily) getOrCreateMemoryDatabase(familyTime int64) (memdb.MemoryDatabase, error) {
 	if f.mutableMemDB == nil {
 		newDB, err := newMemoryDBFunc(&memdb.MemoryDatabaseCfg{
 			FamilyTime:    familyTime,
